@@ -642,12 +642,22 @@ func run(f lib.Flags, scratch string) error {
 			return err
 		}
 		os.Setenv("OCTOSQL_PLUGIN_DIR", root)
-		got, err := pm.ListInstalledPlugins()
+		var got []manager.PluginMetadata
+		var err error
+		var panicked interface{}
+		func() {
+			defer func() { panicked = recover() }()
+			got, err = pm.ListInstalledPlugins()
+		}()
 		os.Unsetenv("OCTOSQL_PLUGIN_DIR")
 		os.RemoveAll(root)
 		obs := ""
 		js := map[string]interface{}{"kind": "list", "installed": installed, "tree": treeJSON(t)}
-		if err != nil {
+		if panicked != nil {
+			obs = "(Panic 1)"
+			js["panic"] = fmt.Sprint(panicked)
+			cf.Count("list_panic")
+		} else if err != nil {
 			code := 99
 			if strings.Contains(err.Error(), "couldn't parse plugin") {
 				code = 1
@@ -682,7 +692,10 @@ func run(f lib.Flags, scratch string) error {
 		if dashed {
 			cf.Count("list_with_dashed_name")
 		}
-		cf.Add(fmt.Sprintf("KList %s %s %s", lib.CoqBool(installed), treeCoq(t), obs), js, dashed)
+		li := cf.Add(fmt.Sprintf("KList %s %s %s", lib.CoqBool(installed), treeCoq(t), obs), js, dashed)
+		if panicked != nil {
+			cf.Violation(li, fmt.Sprintf("ListInstalledPlugins panicked on this directory tree (no plugin is discovered at all): %v", panicked), "")
+		}
 	}
 
 	// ---- Install's pick
@@ -754,7 +767,15 @@ func run(f lib.Flags, scratch string) error {
 		stdout := os.Stdout
 		devnull, _ := os.OpenFile(os.DevNull, os.O_WRONLY, 0)
 		os.Stdout = devnull
-		ierr := ipm.Install(context.Background(), arg, cons)
+		var ierr error
+		func() {
+			defer func() {
+				if p := recover(); p != nil {
+					ierr = fmt.Errorf("panic: %v", p)
+				}
+			}()
+			ierr = ipm.Install(context.Background(), arg, cons)
+		}()
 		os.Stdout = stdout
 		devnull.Close()
 		os.Unsetenv("OCTOSQL_PLUGIN_DIR")
@@ -798,22 +819,47 @@ func run(f lib.Flags, scratch string) error {
 		if err != nil {
 			return err
 		}
-		type rcase struct {
-			t      []repo
-			dbs    []string // coq
-			dbsJS  []interface{}
-			yml    string
-			query  string
+		// A configuration = an installed tree + octosql.yml; EVERY configured database is queried (one CLI run each).
+		// Half of the configurations are "same-type families": two or three databases of ONE plugin type whose
+		// constraints are drawn around different installed versions, so that they must resolve differently.
+		type rcfg struct {
+			t        []repo
+			dbs      []string // coq
+			dbsJS    []interface{}
+			names    []string
+			yml      string
+			nCand    []int
+			sameType bool
+		}
+		type rrun struct {
+			cfg    *rcfg
+			db     int
 			out    string
 			marker string
-			nCand  int
 		}
-		cases := make([]*rcase, nResolve)
-		for i := range cases {
+		families := [][]string{
+			{"1.5.0", "1.9.0", "2.3.0"},
+			{"0.9.0", "1.0.0", "1.2.0-rc.1", "2.0.0"},
+			{"1.0.0", "1.1.0", "2.0.0-beta", "3.0.0"},
+			{"0.1.0", "0.2.0", "1.0.0+b5", "1.0.1"},
+			{"2.0.0", "2.1.0", "2.1.1", "10.0.0"},
+		}
+		var runs []*rrun
+		nCfg := (nResolve + 1) / 2
+		for i := 0; i < nCfg; i++ {
 			r := rng.Fork()
 			t := genInstalledTree(r, false)
+			c := &rcfg{sameType: i%2 == 0}
+			var famRef [2]string
+			if c.sameType {
+				rp, pi := r.Intn(len(t)), 0
+				pi = r.Intn(len(t[rp].plugs))
+				t[rp].plugs[pi].versions = append([]string(nil), families[r.Intn(len(families))]...)
+				famRef = [2]string{t[rp].name, t[rp].plugs[pi].name}
+				cf.Count("resolve_same_type_configurations")
+			}
 			sortTree(t, installedDir)
-			c := &rcase{t: t}
+			c.t = t
 			var all [][2]string
 			vers := map[[2]string][]string{}
 			for _, rp := range t {
@@ -823,10 +869,16 @@ func run(f lib.Flags, scratch string) error {
 				}
 			}
 			nDB := 1 + r.Intn(2)
+			if c.sameType {
+				nDB = 2 + r.Intn(2)
+			}
+			usedAround := map[string]bool{}
 			yml := "databases:\n"
 			for d := 0; d < nDB; d++ {
 				ref := all[r.Intn(len(all))]
-				if r.Chance(1, 12) {
+				if c.sameType {
+					ref = famRef
+				} else if r.Chance(1, 12) {
 					ref = [2]string{"core", "absent"}
 				}
 				name := fmt.Sprintf("db%d", d)
@@ -837,17 +889,33 @@ func run(f lib.Flags, scratch string) error {
 				yml += fmt.Sprintf("  - name: %s\n    type: %q\n", name, typ)
 				cons := "None"
 				var consJS interface{}
-				if r.Chance(3, 4) {
+				if r.Chance(3, 4) || (c.sameType && d < 2) {
 					around := ver{maj: 1}
 					if vs := vers[ref]; len(vs) > 0 {
-						pv := semver.MustParse(vs[r.Intn(len(vs))])
+						pick := vs[r.Intn(len(vs))]
+						for try := 0; c.sameType && usedAround[pick] && try < 8; try++ { // a different installed version per database
+							pick = vs[r.Intn(len(vs))]
+						}
+						usedAround[pick] = true
+						pv := semver.MustParse(pick)
 						around = ver{maj: pv.Major(), min: pv.Minor(), pat: pv.Patch()}
 						if pv.Prerelease() != "" {
 							around.pre = strings.Split(pv.Prerelease(), ".")
 						}
 					}
 					cs := genConstraints(r, around)
-					if r.Chance(1, 3) {
+					switch {
+					case c.sameType && r.Chance(2, 3): // the usual ways to pin a database to one release line
+						one := []cspec{
+							{opTxt: "^", maj: seg{n: around.maj}, min: &seg{n: around.min}, pat: &seg{n: 0}},
+							{opTxt: "~", maj: seg{n: around.maj}, min: &seg{n: around.min}},
+							{opTxt: "", maj: seg{n: around.maj}, min: &seg{x: true, txt: "x"}},
+							{opTxt: "<", maj: seg{n: around.maj + 1}, min: &seg{n: 0}, pat: &seg{n: 0}},
+							{opTxt: "=", maj: seg{n: around.maj}, min: &seg{n: around.min}, pat: &seg{n: around.pat}, pre: around.pre},
+							{opTxt: "<=", maj: seg{n: around.maj}, min: &seg{n: around.min}, pat: &seg{n: around.pat}, pre: around.pre},
+						}[r.Intn(6)]
+						cs = constraints{{one}}
+					case r.Chance(1, 3):
 						cs = constraints{{cspec{opTxt: []string{">=", "^", "~", ""}[r.Intn(4)], maj: seg{n: around.maj}, min: &seg{x: true, txt: "x"}}}}
 					}
 					yml += fmt.Sprintf("    version: %q\n", cs.text())
@@ -856,23 +924,24 @@ func run(f lib.Flags, scratch string) error {
 				}
 				c.dbs = append(c.dbs, fmt.Sprintf("(mkDB %s %s %s %s)", lib.CoqBytes(name), lib.CoqBytes(ref[1]), lib.CoqBytes(ref[0]), cons))
 				c.dbsJS = append(c.dbsJS, map[string]interface{}{"name": name, "type": typ, "version": consJS})
-				if d == 0 {
-					c.nCand = len(vers[ref])
-				}
+				c.names = append(c.names, name)
+				c.nCand = append(c.nCand, len(vers[ref]))
 			}
 			c.yml = yml
-			c.query = fmt.Sprintf("db%d", r.Intn(nDB))
-			cases[i] = c
+			for d := range c.names {
+				runs = append(runs, &rrun{cfg: c, db: d})
+			}
 		}
 		var wg sync.WaitGroup
 		sem := make(chan struct{}, 6)
-		errs := make([]error, len(cases))
-		for i, c := range cases {
+		errs := make([]error, len(runs))
+		for i, ru := range runs {
 			wg.Add(1)
-			go func(i int, c *rcase) {
+			go func(i int, ru *rrun) {
 				defer wg.Done()
 				sem <- struct{}{}
 				defer func() { <-sem }()
+				c := ru.cfg
 				home := filepath.Join(scratch, fmt.Sprintf("resolve-%d", i))
 				defer os.RemoveAll(home)
 				if err := writeTree(filepath.Join(home, ".octosql", "plugins"), c.t, installedDir, true); err != nil {
@@ -884,47 +953,63 @@ func run(f lib.Flags, scratch string) error {
 					return
 				}
 				marker := filepath.Join(home, "marker")
-				cmd := exec.Command(cli, fmt.Sprintf("SELECT * FROM %s.t", c.query))
+				cmd := exec.Command(cli, fmt.Sprintf("SELECT * FROM %s.t", c.names[ru.db]))
 				cmd.Env = []string{"HOME=" + home, "OCTOSQL_NO_TELEMETRY=1", "VERIF_MARKER=" + marker, "PATH=" + os.Getenv("PATH"), "OCTOSQL_PLUGIN_TMP_DIR=" + filepath.Join(home, "tmp")}
 				out, _ := cmd.CombinedOutput()
-				c.out = string(out)
+				ru.out = string(out)
 				m, _ := os.ReadFile(marker)
-				c.marker = strings.TrimSpace(string(m))
-			}(i, c)
+				ru.marker = strings.TrimSpace(string(m))
+			}(i, ru)
 		}
 		wg.Wait()
-		for i, c := range cases {
+		ranPerCfg := map[*rcfg]map[string]bool{}
+		for i, ru := range runs {
 			if errs[i] != nil {
 				return errs[i]
 			}
+			c := ru.cfg
+			query := c.names[ru.db]
 			obs := ""
-			js := map[string]interface{}{"kind": "resolve", "tree": treeJSON(c.t), "databases": c.dbsJS, "query_database": c.query}
+			js := map[string]interface{}{"kind": "resolve", "tree": treeJSON(c.t), "databases": c.dbsJS, "query_database": query, "same_type_family": c.sameType}
 			bad := ""
 			switch {
-			case c.marker != "":
-				vdir := filepath.Base(filepath.Dir(strings.Split(c.marker, "\n")[0]))
+			case ru.marker != "":
+				vdir := filepath.Base(filepath.Dir(strings.Split(ru.marker, "\n")[0]))
 				pv, perr := semver.NewVersion(vdir)
 				if perr != nil {
-					return fmt.Errorf("stub ran from %q", c.marker)
+					return fmt.Errorf("stub ran from %q", ru.marker)
 				}
 				obs = "(Ok " + obsOf(pv) + ")"
 				js["ran_version"] = vdir
 				cf.Count("resolve_ran")
-			case strings.Contains(c.out, "is not installed with the required version"):
+				if ranPerCfg[c] == nil {
+					ranPerCfg[c] = map[string]bool{}
+				}
+				ranPerCfg[c][vdir] = true
+			case strings.Contains(ru.out, "panic:"):
+				obs = "(Panic 1)"
+				js["error"] = ru.out
+				bad = "octosql panicked at start-up: " + ru.out
+			case strings.Contains(ru.out, "is not installed with the required version"):
 				obs = "(Err 2)"
 				js["error"] = "not installed with the required version"
 				cf.Count("resolve_not_installed")
-			case strings.Contains(c.out, "couldn't parse plugin"):
+			case strings.Contains(ru.out, "couldn't parse plugin"):
 				obs = "(Err 1)"
 				js["error"] = "couldn't parse plugin version"
 			default:
 				obs = "(Err 99)"
-				js["error"] = c.out
-				bad = "start-up neither ran a plugin version nor reported an unresolved database: " + c.out
+				js["error"] = ru.out
+				bad = "start-up neither ran a plugin version nor reported an unresolved database: " + ru.out
 			}
-			idx := cf.Add(fmt.Sprintf("KResolve %s %s %s %s", treeCoq(c.t), lib.CoqList(c.dbs), lib.CoqBytes(c.query), obs), js, c.nCand >= 2)
+			idx := cf.Add(fmt.Sprintf("KResolve %s %s %s %s", treeCoq(c.t), lib.CoqList(c.dbs), lib.CoqBytes(query), obs), js, c.nCand[ru.db] >= 2)
 			if bad != "" {
 				cf.Violation(idx, bad, "")
+			}
+		}
+		for c, ran := range ranPerCfg {
+			if c.sameType && len(ran) >= 2 {
+				cf.Count("resolve_same_type_databases_ran_different_versions")
 			}
 		}
 	}
